@@ -80,10 +80,10 @@ class Reporter:
     def finish(self):
         """print KNOWN-FINDING / VIOLATION lines; return exit code"""
         for k in self.findings:
-            # a listed finding is reported when (and only when) the run reproduced it
-            if self.known_hits.get(k["id"]):
-                print("KNOWN-FINDING: property=%s %s [%s class=%s, reproduced %d times]" % (
-                    self.prop, k["what"], k["function"], k["class"], self.known_hits[k["id"]]))
+            # every listed finding of this property is reported on every run, with the number of times this run's inputs
+            # reproduced it (0 = the seeded inputs of this run did not hit its input class; the finding stays listed)
+            print("KNOWN-FINDING: property=%s %s [%s class=%s, reproduced %d times in this run]" % (
+                self.prop, k["what"], k["function"], k["class"], self.known_hits.get(k["id"], 0)))
         real = [v for v in self.violations if v is not None]
         if not self.violations:
             return 0
